@@ -107,7 +107,9 @@ class RefsExtractor(ConversionsVisitor, ObjectVisitor, WithConversionsResolver):
 
     def object(self, tp: AnyType, fields: Sequence[ObjectField]):
         if parent := get_discriminated_parent(get_origin_or_type(tp)):
-            self._incr_ref(get_type_name(parent).json_schema, parent)
+            # the schema of a child always refers to the one of its parent
+            for _ in range(2):  # ensure ref count > 1
+                self._incr_ref(get_type_name(parent).json_schema, parent)
         for field in fields:
             self.visit_with_conv(field.type, self._field_conversion(field))
 
